@@ -25,6 +25,17 @@ Steps
     Phonopy object a test creates becomes a history, validated the same way
     (queries repeated on a fresh object).
 
+Result holders (round 2): ApiHistory.tla also models Phonopy._mesh (computed, lazy
+init_mesh, IterMesh), the random-displacement generator, the snapshots of
+run_qpoints / run_band_structure and of the mesh consumers (thermal properties,
+DOS, moment, thermal displacements), set_group_velocity, ph2ph, dataset = None
+and force constants handed in as list / view / Fortran / float32.  Requirement:
+a result OBTAINED BEFORE a state change may be old (and stays exactly what it
+was: ImplSnapshotFrozen), a query RUN AFTER it is answered from the current
+contents or refused (FreshEquivalent / ImplRefusesStale).  The specification
+describes the repaired mechanism (Repaired = TRUE, fixes/c15-stale-mesh.md); the
+mechanism as found (Repaired = FALSE) is shown by TLC to violate FreshEquivalent.
+
 Aliasing by documented design (DESIGN.md D15) is decided by TLC too (the
 `known` set of ApiHistoryTrace) and reported with keys `alias:...`; an aliasing
 at any other API point, or any staleness, is a violation `c15:Impl...`.
